@@ -685,9 +685,13 @@ def gen_scenario(rng: common.Rng, cfg: dict[str, Any]) -> list[list[Any]]:
             call(args2, "exec")
             ops.append(["clear"])
             ops.append(["lin", rng.pick(["all", "sub"]), 0, dict(args2)])
+        if rng.chance(0.5):
+            call(args2, "exec")  # the outputs complete the entry that the Jacobian created
         ops.append(["mut", args2[focus], [rat(c) for c in far[focus]]])
         for _ in range(rng.randint(2, 3)):
-            call(args2 if rng.chance(0.7) else fresh_args(far, omit_defaults=False), rng.pick(["lin-all", "lin-all", "lin-sub", "exec"]))
+            call(args2 if rng.chance(0.7) else fresh_args(far, omit_defaults=False), rng.pick(["lin-all", "lin-all", "lin-sub", "exec", "exec"]))
+        if rng.chance(0.5):
+            call(fresh_args(omit_defaults=False), rng.pick(["exec", "exec", "lin-all"]))  # the original values, fresh arrays
     elif kind == "reopen":
         seen = []
         for _ in range(rng.randint(2, 4)):
